@@ -17,6 +17,7 @@ Block grammar (one directive per line; payloads between <<< and >>>):
   only <fn>[,<fn>...]            keep only these fns of an impl/trait block (others dropped, logged)
   ret <fn> <name>                R2: `-> T` becomes `-> (name: T)`
   sig <fn> <<< ... >>>           requires/ensures/decreases after the signature
+  pre <<< ... >>>                ghost text (attribute) in front of the whole item
   attr <fn> <<< ... >>>          attribute before the fn (e.g. #[verifier::external_body]; logged)
   start <fn> <<< ... >>>         ghost text at the start of the body
   loop <fn> <k> <<< ... >>>      invariant/decreases for the k-th loop of fn (source order, 1-based)
@@ -683,6 +684,8 @@ def build_unit(unit_path, repo=REPO):
                 it.d_attr(args[0], payload)
             elif name == "start":
                 it.d_start(args[0], payload)
+            elif name == "pre":
+                it.ghost(0, payload + "\n")
             elif name == "loop":
                 it.d_loop(args[0], int(args[1]), payload)
             elif name == "forit":
